@@ -17,6 +17,7 @@ theorem writeFont_exit (std : List String) (f : FontIn) (file : Bytes) (passes :
     (h : writeFont std f = .ok (file, passes)) :
     ∃ fx sc offs, prepare std f = .ok (fx, sc) ∧
       file = (mkBlobs std f.ros.isSome fx sc offs).flatten ∧
+      mkBlobsFits std f.ros.isSome fx sc offs = true ∧
       ∀ i, i < sc.num → i ≤ (mkBlobs std f.ros.isSome fx sc offs).length →
         offs.getD i 0 = ((((mkBlobs std f.ros.isSome fx sc offs).take i).flatten.length : Nat) : Int) := by
   unfold writeFont at h
@@ -33,10 +34,13 @@ theorem writeFont_exit (std : List String) (f : FontIn) (file : Bytes) (passes :
       obtain ⟨blobs, offs, k⟩ := r
       rw [hl] at h
       simp only at h
+      split at h
+      case isFalse => cases h
+      rename_i hfits
       injection h with h
       injection h with h1 h2
       obtain ⟨hb, hs⟩ := writeLoop_exit _ _ _ _ _ _ _ _ hl
-      refine ⟨fx, sc, offs, rfl, by rw [← h1, hb], ?_⟩
+      refine ⟨fx, sc, offs, rfl, by rw [← h1, hb], hfits, ?_⟩
       intro i hi hlen
       have hs' : (cumsum blobs).take sc.num = offs.take sc.num := by
         simpa [sameOffs] using hs
@@ -51,6 +55,22 @@ theorem section_split (B : List Bytes) (i : Nat) (hi : i < B.length) :
     rw [this, List.getElem_cons_drop_succ_eq_drop, List.take_append_drop]
   conv => lhs; rw [h1]
   simp [List.flatten_append, List.append_assoc]
+
+theorem idxOk_of_bounds (blobs : List Bytes) (hc : blobs.length < 65536) (hb : bodyLength blobs + 1 < 4294967296) :
+    idxOk blobs = true := by
+  obtain ⟨bs, h, _⟩ := readIndex_indexEncode blobs hc hb [] []
+  simp [idxOk, h]
+
+theorem idxOk_bounds (blobs : List Bytes) (h : idxOk blobs = true) (hne : blobs ≠ []) :
+    blobs.length < 65536 ∧ bodyLength blobs + 1 < 4294967296 := by
+  unfold idxOk indexEncode at h
+  have hl : ¬ blobs.length = 0 := fun h0 => hne (List.eq_nil_of_length_eq_zero h0)
+  by_cases h1 : blobs.length ≥ 65536
+  · simp [h1] at h
+  · simp only [h1, if_false, hl] at h
+    by_cases h4 : chooseOffSize (bodyLength blobs) > 4
+    · simp [h4] at h
+    · exact ⟨by omega, (chooseOffSize_le_iff _).mp (by omega)⟩
 
 /-- reading an INDEX that is a whole section -/
 theorem readIndex_section (B : List Bytes) (i : Nat) (hi : i < B.length) (blobs : List Bytes)
@@ -92,7 +112,8 @@ def topBaseSimple (f : FontIn) : DictL :=
 
 theorem prepare_simple (std : List String) (f : FontIn) (hros : f.ros = none)
     (henc : f.enc = .standard ∨ f.enc = .expert) (cs : Bytes)
-    (hcs : encodeCharset ((stringsLookupAll std [] f.names).1.map fun (n : Nat) => (n : Int)) = .ok cs) :
+    (hcs : encodeCharset ((stringsLookupAll std [] f.names).1.map fun (n : Nat) => (n : Int)) = .ok cs)
+    (hi1 : idxOk [f.fontName] = true) (hi2 : idxOk f.charStrings = true) :
     prepare std f = .ok
       ({ nameIndex := outOk (indexEncode [f.fontName]), encoding := none, charsets := cs, fdSelect := none,
          charStrings := outOk (indexEncode f.charStrings), custom0 := (stringsLookupAll std [] f.names).2,
@@ -103,8 +124,8 @@ theorem prepare_simple (std : List String) (f : FontIn) (hros : f.ros = none)
   unfold prepare
   simp only [hros, Option.isSome_none, Bool.false_eq_true, if_false]
   rcases henc with he | he
-  · simp [he, hcs, topBaseSimple, isExpert, optEntry]
-  · simp [he, hcs, topBaseSimple, isExpert, optEntry]
+  · simp [he, hcs, topBaseSimple, isExpert, optEntry, hi1, hi2]
+  · simp [he, hcs, topBaseSimple, isExpert, optEntry, hi1, hi2]
 
 
 /-- the sections of a simple font with one private DICT, as a function of the offsets -/
@@ -314,6 +335,265 @@ theorem blobToStr_strToBlob (s : String) (h : ∀ c ∈ s.toList, c.toNat < 256)
   exact String.ofList_toList
 
 
+theorem simpleSecs_top (std : List String) (f : FontIn) (p : PrivIn) (cs : Bytes) (offs : List Int) :
+    (simpleSecs std f p cs offs).top
+      = topSimple f (simpleSecs std f p cs offs).privBlob.length (offs.getD 10 0) (offs.getD 6 0) (offs.getD 8 0) := by
+  simp only [simpleSecs, topSimple]
+
+theorem simpleSecs_enc (std : List String) (f : FontIn) (p : PrivIn) (cs : Bytes) (offs : List Int) :
+    ((simpleSecs std f p cs offs).topData, (simpleSecs std f p cs offs).custom)
+      = encodeDictS std (stringsLookupAll std [] f.names).2 (simpleSecs std f p cs offs).top := by
+  simp only [simpleSecs]
+
+theorem simpleSecs_priv (std : List String) (f : FontIn) (p : PrivIn) (cs : Bytes) (offs : List Int) :
+    (simpleSecs std f p cs offs).privBlob
+      = (encodeDictS std [] (privDictOf p f.defWidth f.nomWidth (offs.getD 11 0 - offs.getD 10 0))).1 := by
+  simp only [simpleSecs]
+
+theorem secPos_mono (B : List Bytes) (i j : Nat) (h : i ≤ j) : secPos B i ≤ secPos B j := by
+  unfold secPos
+  have : B.take j = B.take i ++ (B.take j).drop i := by
+    have h1 : B.take i = (B.take j).take i := by rw [List.take_take]; congr 1; omega
+    rw [h1, List.take_append_drop]
+  rw [this, List.flatten_append, List.length_append]
+  omega
+
+theorem find_topSimple_ros (f : FontIn) (a b c d : Int) :
+    (topSimple f a b c d).find? (fun x => decide (x.1 = 3102)) = none := by
+  simp (disch := decide) only [topSimple, topBaseSimple, fontMatrixEntry, List.find?_append,
+    find_optEntry_eq, find_optEntry_ne, List.find?_cons, List.find?_nil, Option.or_none, Option.none_or]
+  simp
+
+theorem stringsLookup_bound (std c : List String) (s : String) :
+    (stringsLookup std c s).1 < std.length + c.length + 1 ∧ (stringsLookup std c s).2.length ≤ c.length + 1 := by
+  unfold stringsLookup
+  cases hc : lastIdx c s with
+  | some i =>
+    have := lastIdx_some c s i hc
+    have hi : i < c.length := by
+      rcases Nat.lt_or_ge i c.length with h | h
+      · exact h
+      · rw [List.getElem?_eq_none h] at this; cases this
+    simp only; omega
+  | none =>
+    cases hs : lastIdx std s with
+    | some i =>
+      have := lastIdx_some std s i hs
+      have hi : i < std.length := by
+        rcases Nat.lt_or_ge i std.length with h | h
+        · exact h
+        · rw [List.getElem?_eq_none h] at this; cases this
+      simp only; omega
+    | none => simp only [List.length_append, List.length_cons, List.length_nil]; omega
+
+theorem stringsLookupAll_bound (std : List String) (l : List String) : ∀ (c : List String),
+    (∀ sid ∈ (stringsLookupAll std c l).1, sid < std.length + c.length + l.length) ∧
+      (stringsLookupAll std c l).2.length ≤ c.length + l.length ∧
+      (stringsLookupAll std c l).1.length = l.length := by
+  induction l with
+  | nil => intro c; simp [stringsLookupAll]
+  | cons s ss ih =>
+    intro c
+    obtain ⟨h1, h2⟩ := stringsLookup_bound std c s
+    obtain ⟨i1, i2, i3⟩ := ih (stringsLookup std c s).2
+    simp only [stringsLookupAll, List.length_cons]
+    refine ⟨?_, by omega, by omega⟩
+    intro sid hsid
+    rcases List.mem_cons.mp hsid with rfl | hsid
+    · omega
+    · have := i1 sid hsid; omega
+
+theorem resolveEntries_nostr (std : List String) (E : DictL) (h : ∀ e ∈ E, NoStr e.2) : ∀ (c : List String),
+    resolveEntries std c E = (E, c) := by
+  induction E with
+  | nil => intro c; rfl
+  | cons e es ih =>
+    intro c
+    simp only [resolveEntries, resolveArgs_nostr std c e.2 (h e (List.mem_cons_self ..)),
+      ih (fun x hx => h x (List.mem_cons_of_mem _ hx))]
+
+theorem encodeDictS_nostr (std c : List String) (d : DictL) (h : ∀ e ∈ d, NoStr e.2) :
+    encodeDictS std c d = (encodeDict d, c) := by
+  rw [encodeDictS_eq, resolveEntries_nostr std (sortDict d) (fun e he => h e ((sortDict_perm d).mem_iff.mp he)) c]
+  rfl
+
+theorem privDict_nostr (p : PrivIn) (dw nw sub : Int) (h : PrivDom p dw nw sub) :
+    ∀ e ∈ privDictOf p dw nw sub, NoStr e.2 := by
+  intro e he o ho s hs
+  subst hs
+  exact absurd ((privDict_valid p dw nw sub h e he).2 _ ho) (by simp [ValidOperand])
+
+theorem stringsLookupAll_ext (std : List String) (l : List String) : ∀ (c : List String),
+    ∃ ext, (stringsLookupAll std c l).2 = c ++ ext := by
+  induction l with
+  | nil => intro c; exact ⟨[], by simp [stringsLookupAll]⟩
+  | cons s ss ih =>
+    intro c
+    obtain ⟨e1, h1⟩ := (stringsGet_lookup std c s).2
+    obtain ⟨e2, h2⟩ := ih (stringsLookup std c s).2
+    exact ⟨e1 ++ e2, by simp only [stringsLookupAll]; rw [h2, h1, List.append_assoc]⟩
+
+/-- the names come back through their SIDs, with respect to any later state of the string table -/
+theorem names_back (std : List String) (l : List String) : ∀ (c ext : List String),
+    mapOutcomeL (sidName std.toArray ((stringsLookupAll std c l).2 ++ ext).toArray)
+      ((stringsLookupAll std c l).1.map fun (n : Nat) => (n : Int)) = .ok l := by
+  induction l with
+  | nil => intro c ext; rfl
+  | cons s ss ih =>
+    intro c ext
+    simp only [stringsLookupAll, List.map_cons, mapOutcomeL, sidName]
+    obtain ⟨e2, h2⟩ := stringsLookupAll_ext std ss (stringsLookup std c s).2
+    have hg := (stringsGet_lookup std c s).1
+    have hg' : stringsGet std.toArray ((stringsLookupAll std (stringsLookup std c s).2 ss).2 ++ ext).toArray
+        ((stringsLookup std c s).1 : Nat) = some s := by
+      rw [h2, List.append_assoc]
+      exact stringsGet_mono std _ _ _ _ hg
+    rw [hg']
+    simp only
+    rw [ih (stringsLookup std c s).2 ext]
+
+theorem mapM_real_back (fm : List Rl) (h : ∀ x ∈ fm, RealDom x) :
+    (fm.map (fun d => decOperand (realOperand d))).mapM realOf = some fm := by
+  induction fm with
+  | nil => rfl
+  | cons x xs ih =>
+    have hx := h x (List.mem_cons_self ..)
+    simp only [List.map_cons, List.mapM_cons, decOperand_realOperand x hx, realOf, normReal_normal x hx,
+      ih (fun y hy => h y (List.mem_cons_of_mem _ hy))]
+    rfl
+
+/-! ### where the custom strings come from -/
+
+theorem stringsLookup_mem (std c : List String) (s : String) :
+    ∀ x ∈ (stringsLookup std c s).2, x ∈ c ∨ x = s := by
+  intro x hx
+  unfold stringsLookup at hx
+  cases hc : lastIdx c s with
+  | some i => simp only [hc] at hx; exact Or.inl hx
+  | none =>
+    simp only [hc] at hx
+    cases hs : lastIdx std s with
+    | some i => simp only [hs] at hx; exact Or.inl hx
+    | none =>
+      simp only [hs] at hx
+      rcases List.mem_append.mp hx with h | h
+      · exact Or.inl h
+      · exact Or.inr (by simpa using h)
+
+theorem stringsLookupAll_mem (std : List String) (l : List String) : ∀ (c : List String),
+    ∀ x ∈ (stringsLookupAll std c l).2, x ∈ c ∨ x ∈ l := by
+  induction l with
+  | nil => intro c x hx; exact Or.inl (by simpa [stringsLookupAll] using hx)
+  | cons s ss ih =>
+    intro c x hx
+    simp only [stringsLookupAll] at hx
+    rcases ih _ x hx with h | h
+    · rcases stringsLookup_mem std c s x h with h' | h'
+      · exact Or.inl h'
+      · exact Or.inr (by rw [h']; exact List.mem_cons_self ..)
+    · exact Or.inr (List.mem_cons_of_mem _ h)
+
+theorem resolveArgs_mem (std : List String) (args : List Operand) : ∀ (c : List String),
+    ∀ x ∈ (resolveArgs std c args).2, x ∈ c ∨ Operand.str x ∈ args := by
+  induction args with
+  | nil => intro c x hx; exact Or.inl (by simpa [resolveArgs] using hx)
+  | cons o os ih =>
+    intro c x hx
+    cases o with
+    | str s =>
+      simp only [resolveArgs] at hx
+      rcases ih _ x hx with h | h
+      · rcases stringsLookup_mem std c s x h with h' | h'
+        · exact Or.inl h'
+        · exact Or.inr (by rw [h']; exact List.mem_cons_self ..)
+      · exact Or.inr (List.mem_cons_of_mem _ h)
+    | int v =>
+      simp only [resolveArgs] at hx
+      rcases ih _ x hx with h | h
+      · exact Or.inl h
+      · exact Or.inr (List.mem_cons_of_mem _ h)
+    | real n m e =>
+      simp only [resolveArgs] at hx
+      rcases ih _ x hx with h | h
+      · exact Or.inl h
+      · exact Or.inr (List.mem_cons_of_mem _ h)
+
+theorem resolveEntries_mem (std : List String) (E : DictL) : ∀ (c : List String),
+    ∀ x ∈ (resolveEntries std c E).2, x ∈ c ∨ ∃ e ∈ E, Operand.str x ∈ e.2 := by
+  induction E with
+  | nil => intro c x hx; exact Or.inl (by simpa [resolveEntries] using hx)
+  | cons e es ih =>
+    intro c x hx
+    simp only [resolveEntries] at hx
+    rcases ih _ x hx with h | ⟨e', he', hs⟩
+    · rcases resolveArgs_mem std e.2 c x h with h' | h'
+      · exact Or.inl h'
+      · exact Or.inr ⟨e, List.mem_cons_self .., h'⟩
+    · exact Or.inr ⟨e', List.mem_cons_of_mem _ he', hs⟩
+
+theorem encodeDictS_mem (std c : List String) (d : DictL) :
+    ∀ x ∈ (encodeDictS std c d).2, x ∈ c ∨ ∃ e ∈ d, Operand.str x ∈ e.2 := by
+  intro x hx
+  rw [encodeDictS_eq] at hx
+  rcases resolveEntries_mem std _ c x hx with h | ⟨e, he, hs⟩
+  · exact Or.inl h
+  · exact Or.inr ⟨e, (sortDict_perm d).mem_iff.mp he, hs⟩
+
+theorem realOperand_ne_str (d : Rl) (x : String) : realOperand d ≠ .str x := by
+  unfold realOperand; split <;> simp
+
+/-- the strings in the Top DICT of a simple font are FontInfo strings -/
+theorem topSimple_strs (f : FontIn) (ht : TopDom f) (a b c d : Int) (x : String) :
+    (∃ e ∈ topSimple f a b c d, Operand.str x ∈ e.2) → x ∈ f.strs ∨ x = "" := by
+  rintro ⟨e, he, hx⟩
+  simp only [topSimple, topBaseSimple, fontMatrixEntry, List.mem_append, List.mem_singleton] at he
+  have getD_mem : ∀ i, f.strs.getD i "" ∈ f.strs ∨ f.strs.getD i "" = "" := by
+    intro i
+    rw [List.getD_eq_getElem?_getD]
+    cases hh : f.strs[i]? with
+    | none => right; rfl
+    | some v => left; simp; exact List.mem_of_getElem? hh
+  have strCase : ∀ (op i : Nat), e = (op, [Operand.str (f.strs.getD i "")]) → x ∈ f.strs ∨ x = "" := by
+    intro op i hee
+    rw [hee] at hx
+    simp only [List.mem_singleton] at hx
+    injection hx with hx
+    rw [hx]
+    exact getD_mem i
+  have numCase : ∀ (op : Nat) (args : List Operand), (∀ o ∈ args, ∀ s, o ≠ Operand.str s) → e = (op, args) →
+      x ∈ f.strs ∨ x = "" := by
+    intro op args hno hee
+    rw [hee] at hx
+    exact absurd rfl (hno _ hx x)
+  have validNo : ∀ (o : Operand), ValidOperand o → ∀ o' ∈ [o], ∀ s, o' ≠ Operand.str s := by
+    intro o ho o' h' s hs
+    simp only [List.mem_singleton] at h'
+    subst h'; subst hs
+    simp [ValidOperand] at ho
+  have intNo : ∀ (l : List Int), ∀ o ∈ l.map Operand.int, ∀ s, o ≠ Operand.str s := by
+    intro l o ho s hs
+    obtain ⟨v, _, rfl⟩ := List.mem_map.mp ho
+    cases hs
+  rcases he with ((((((((((((((he | he) | he) | he) | he) | he) | he) | he) | he) | he) | he) | he) | he) | he) | he)
+  · exact strCase _ 0 (mem_optEntry he)
+  · exact strCase _ 1 (mem_optEntry he)
+  · exact strCase _ 2 (mem_optEntry he)
+  · exact strCase _ 3 (mem_optEntry he)
+  · exact strCase _ 4 (mem_optEntry he)
+  · exact strCase _ 5 (mem_optEntry he)
+  · exact numCase _ _ (intNo [1]) (mem_optEntry he)
+  · exact numCase _ _ (validNo _ (realOperand_valid _ ht.angle)) (mem_optEntry he)
+  · exact numCase _ _ (validNo _ ht.ulPos) (mem_optEntry he)
+  · exact numCase _ _ (validNo _ ht.ulThick) (mem_optEntry he)
+  · refine numCase _ _ ?_ (mem_optEntry he)
+    intro o ho s hs
+    obtain ⟨y, _, rfl⟩ := List.mem_map.mp ho
+    exact realOperand_ne_str y s hs
+  · exact numCase _ _ (intNo [1]) (mem_optEntry he)
+  · exact numCase _ _ (intNo [a, b]) he
+  · exact numCase _ _ (intNo [c]) he
+  · exact numCase _ _ (intNo [d]) he
+
 /-! ### the composition for simple fonts with a predefined encoding -/
 
 /-- the domain: a simple font (one private DICT), Standard or Expert encoding -/
@@ -330,6 +610,7 @@ structure SimpleDom (std : List String) (f : FontIn) (p : PrivIn) : Prop where
   csBody : bodyLength f.charStrings + 1 < 4294967296
   notdef : (stringsLookupAll std [] f.names).1.head? = some 0
   latin : ∀ s, s ∈ f.names ∨ s ∈ f.strs → ∀ c ∈ s.toList, c.toNat < 256
+  fmLen : (f.fontMatrix.getD defaultFM).length = 6
 
 /-- what `Read` is expected to deliver for the private DICT -/
 def nfPriv (p : PrivIn) (dw nw : Int) : PrivOut :=
@@ -371,7 +652,12 @@ theorem simple_layout (std : List String) (f : FontIn) (p : PrivIn) (hd : Simple
     ∃ cs offs,
       encodeCharset ((stringsLookupAll std [] f.names).1.map fun (n : Nat) => (n : Int)) = .ok cs ∧
       file = (simpleSecs std f p cs offs).B.flatten ∧
+      idxOk [(simpleSecs std f p cs offs).topData] = true ∧
+      idxOk ((simpleSecs std f p cs offs).custom.map strToBlob) = true ∧
       ∀ i, i < 12 → offs.getD i 0 = (secPos (simpleSecs std f p cs offs).B i : Int) := by
+  have hi1 : idxOk [f.fontName] = true := idxOk_of_bounds _ (by simp) (by simp [bodyLength]; exact hd.nameLen)
+  have hi2 : idxOk f.charStrings = true :=
+    idxOk_of_bounds _ (by have := hd.nGlyphs; have := hd.nMax; omega) hd.csBody
   cases hcs : encodeCharset ((stringsLookupAll std [] f.names).1.map fun (n : Nat) => (n : Int)) with
   | err x =>
     exfalso
@@ -388,19 +674,21 @@ theorem simple_layout (std : List String) (f : FontIn) (p : PrivIn) (hd : Simple
       rcases hd.enc with he | he <;> simp [he, hcs]
     unfold writeFont at h; rw [this] at h; cases h
   | ok cs =>
-    obtain ⟨fx, sc, offs, hprep, hfile, hoffs⟩ := writeFont_exit std f file passes h
-    rw [prepare_simple std f hd.ros hd.enc cs hcs] at hprep
+    obtain ⟨fx, sc, offs, hprep, hfile, hfits, hoffs⟩ := writeFont_exit std f file passes h
+    rw [prepare_simple std f hd.ros hd.enc cs hcs hi1 hi2] at hprep
     injection hprep with hprep
     injection hprep with hfx hsc
     subst hfx; subst hsc
-    simp only [hd.ros, Option.isSome_none] at hfile hoffs
+    simp only [hd.ros, Option.isSome_none] at hfile hoffs hfits
     rw [mkBlobs_simple std f p hd.privs cs offs] at hfile hoffs
-    refine ⟨cs, offs, rfl, hfile, ?_⟩
+    have hf2 : idxOk [(simpleSecs std f p cs offs).topData] = true ∧
+        idxOk ((simpleSecs std f p cs offs).custom.map strToBlob) = true := by
+      simpa [mkBlobsFits, mkSecs, hd.privs, simpleSecs, privDictOf, List.range_succ] using hfits
+    refine ⟨cs, offs, rfl, hfile, hf2.1, hf2.2, ?_⟩
     intro i hi
     have hnum : (mkSecs f).num = 12 := by simp [mkSecs, hd.privs]
     have hlenB : (simpleSecs std f p cs offs).B.length = 12 := by simp [simpleSecs]
     exact hoffs i (by rw [hnum]; exact hi) (by rw [hlenB]; omega)
-
 
 theorem offsSize_le (i : Int) : 1 ≤ offsSize i ∧ offsSize i ≤ 4 := by
   unfold offsSize; split <;> (try split) <;> (try split) <;> omega
@@ -409,7 +697,7 @@ theorem readFont_writeFont_simple (T : Tables) (f : FontIn) (p : PrivIn) (hd : S
     (file : Bytes) (passes : Nat) (h : writeFont T.std.toList f = .ok (file, passes))
     (hsize : file.length < 2147483648) :
     readFont T file = .ok (nfSimple T f p) := by
-  obtain ⟨cs, offs, hcs, hfile, hoffs⟩ := simple_layout T.std.toList f p hd file passes h
+  obtain ⟨cs, offs, hcs, hfile, hfitTop, hfitStr, hoffs⟩ := simple_layout T.std.toList f p hd file passes h
   subst hfile
   generalize hS : simpleSecs T.std.toList f p cs offs = S at *
   have hlenB : S.B.length = 12 := by rw [← hS]; simp [simpleSecs]
@@ -441,13 +729,301 @@ theorem readFont_writeFont_simple (T : Tables) (f : FontIn) (p : PrivIn) (hd : S
   simp only
   have hx : beVal [1, 0, 4, UInt8.ofNat os] = 16777216 + 1024 + os := by
     have : (UInt8.ofNat os).toNat = os := by simp [UInt8.toNat_ofNat']; omega
-    simp [beVal, this]
+    simp [beVal, this]; omega
   rw [hx]
   have e1 : (16777216 + 1024 + os) / 16777216 = 1 := by omega
   have e2 : (16777216 + 1024 + os) / 256 % 256 = 4 := by omega
   have e3 : (16777216 + 1024 + os) % 256 = os := by omega
   simp only [e1, e2, e3]
   rw [if_neg (by omega), if_neg (by omega)]
-  sorry
+  -- steps 2-4: Name INDEX, Top DICT INDEX, String INDEX
+  have hI1 := readIndex_section' S.B 1 (by omega) [f.fontName] (by simp) (by simp [bodyLength]; exact hd.nameLen) hB1
+  rw [hP1] at hI1
+  rw [hI1]
+  simp only [List.length_singleton, show ¬ (1 = 0) by omega, if_false, show ¬ (1 > 1) by omega]
+  have hsz2 : secPos S.B 3 ≤ S.B.flatten.length := secPos_le _ _
+  have hB2len : (S.B.getD 2 []).length = secPos S.B 3 - secPos S.B 2 := by
+    rw [secPos_succ _ 2 (by omega)]; omega
+  have htdlen : S.topData.length + 1 < 4294967296 := by
+    have := (idxOk_bounds _ hfitTop (by simp)).2
+    simpa [bodyLength] using this
+  have hI2 := readIndex_section' S.B 2 (by omega) [S.topData] (by simp) (by simp [bodyLength]; exact htdlen) hB2
+  rw [hI2]
+  simp only [List.length_singleton, ne_eq, not_true_eq_false, if_false]
+  -- String INDEX
+  have hcustomLen : (S.custom.map strToBlob).length < 65536 ∧ bodyLength (S.custom.map strToBlob) + 1 < 4294967296 := by
+    by_cases hne : S.custom.map strToBlob = []
+    · rw [hne]; simp [bodyLength]
+    · exact idxOk_bounds _ hfitStr hne
+  have hI3 := readIndex_section' S.B 3 (by omega) (S.custom.map strToBlob) hcustomLen.1 hcustomLen.2 hB3
+  rw [hI3]
+  simp only
+  -- the custom strings come back (Latin-1 carriers)
+  have hStop : S.top = topSimple f S.privBlob.length (offs.getD 10 0) (offs.getD 6 0) (offs.getD 8 0) := by
+    have := simpleSecs_top T.std.toList f p cs offs; rw [hS] at this; exact this
+  have hSenc : (S.topData, S.custom) = encodeDictS T.std.toList (stringsLookupAll T.std.toList [] f.names).2 S.top := by
+    have := simpleSecs_enc T.std.toList f p cs offs; rw [hS] at this; exact this
+  have hcustomL1 : ∀ s ∈ S.custom, ∀ c ∈ s.toList, c.toNat < 256 := by
+    intro s hs
+    have hs' : s ∈ (encodeDictS T.std.toList (stringsLookupAll T.std.toList [] f.names).2 S.top).2 := by
+      rw [← hSenc]; exact hs
+    rcases encodeDictS_mem _ _ _ s hs' with h1 | h1
+    · rcases stringsLookupAll_mem _ _ _ s h1 with h2 | h2
+      · simp at h2
+      · exact hd.latin s (Or.inl h2)
+    · rw [hStop] at h1
+      rcases topSimple_strs f hd.top _ _ _ _ s h1 with h2 | h2
+      · exact hd.latin s (Or.inr h2)
+      · rw [h2]; intro c hc; simp at hc
+  have hcustomBack : (S.custom.map strToBlob).map blobToStr = S.custom := by
+    rw [List.map_map]
+    conv => rhs; rw [← List.map_id S.custom]
+    apply List.map_congr_left
+    intro s hs
+    exact blobToStr_strToBlob s (hcustomL1 s hs)
+  rw [hcustomBack]
+  simp only [List.headD_cons]
+  -- bounds on the numbers in the Top DICT
+  have hoffB : ∀ i, i < 12 → I32 (offs.getD i 0) := by
+    intro i hi
+    rw [hoffs i hi]
+    have := secPos_le S.B i
+    unfold I32; omega
+  have hprivLen : I32 (S.privBlob.length : Int) := by
+    have h1 : secPos S.B 11 = secPos S.B 10 + (S.B.getD 10 []).length := secPos_succ S.B 10 (by omega)
+    rw [hB10] at h1
+    have := secPos_le S.B 11
+    unfold I32; omega
+  have htopDec := topSimple_decode T.std.toList (stringsLookupAll T.std.toList [] f.names).2 f hd.top
+    S.privBlob.length (offs.getD 10 0) (offs.getD 6 0) (offs.getD 8 0) hprivLen (hoffB 10 (by omega))
+    (hoffB 6 (by omega)) (hoffB 8 (by omega))
+    (by
+      rw [← hStop, ← hSenc]
+      have h1 := hcustomLen.1
+      have h2 := hd.nMax
+      simp only [List.length_map] at h1
+      show T.std.toList.length + S.custom.length < 2147483647
+      omega)
+  rw [← hStop, ← hSenc] at htopDec
+  simp only [Array.toArray_toList] at htopDec
+  rw [htopDec]
+  simp only
+  -- what `Read` finds in the Top DICT
+  have hnd := topSimple_keys_nodup f S.privBlob.length (offs.getD 10 0) (offs.getD 6 0) (offs.getD 8 0)
+  rw [← hStop] at hnd
+  have key : ∀ op, dGet ((sortDict S.top).map fun e => (e.1, e.2.map decOperand)) op
+      = (dGet S.top op).map decOperand := dGet_decoded S.top hnd
+  obtain ⟨g17, g15, g18, g3078, g3102, g16, g3079, g3073, g3074, g3075, g3076, gstr⟩ :=
+    dGet_topSimple f S.privBlob.length (offs.getD 10 0) (offs.getD 6 0) (offs.getD 8 0)
+  rw [← hStop] at g17 g15 g18 g3078 g3102 g16 g3079 g3073 g3074 g3075 g3076 gstr
+  have hhas : dHas ((sortDict S.top).map fun e => (e.1, e.2.map decOperand)) 3102 = false := by
+    unfold dHas
+    rw [dGet_expected S.top (fun e => (e.1, e.2.map decOperand)) (fun _ => rfl) hnd 3102, hStop, find_topSimple_ros]
+    rfl
+  generalize hD : (sortDict S.top).map (fun e => (e.1, e.2.map decOperand)) = D at *
+  have hct : dInt D 3078 2 = 2 := by unfold dInt; rw [key, g3078]; rfl
+  have h17 : dInt D 17 0 = offs.getD 8 0 := by unfold dInt; rw [key, g17]; rfl
+  have h15 : dInt D 15 0 = offs.getD 6 0 := by unfold dInt; rw [key, g15]; rfl
+  rw [hct]
+  simp only [ne_eq, not_true_eq_false, if_false]
+  -- Global Subr INDEX
+  have hI4 := readIndex_empty_section S.B 4 (by omega) hB4
+  rw [hI4]
+  simp only
+  -- CharStrings INDEX
+  have hpos8 : offs.getD 8 0 = (secPos S.B 8 : Int) := hoffs 8 (by omega)
+  have h48 : 4 ≤ secPos S.B 8 := by rw [← hP1]; exact secPos_mono _ _ _ (by omega)
+  have hI8 := readIndex_section' S.B 8 (by omega) f.charStrings
+    (by have := hd.nGlyphs; have := hd.nMax; omega) hd.csBody hB8
+  have hcsRead : readIndexAt S.B.flatten (dInt D 17 0) = .ok f.charStrings := by
+    unfold readIndexAt
+    rw [h17, hpos8]
+    rw [if_neg (by omega)]
+    simp only [Int.toNat_natCast, hI8]
+  rw [hcsRead]
+  simp only
+  have hn0 : ¬ f.charStrings.length = 0 := by have := hd.nGlyphs; have := hd.nPos; omega
+  rw [if_neg hn0]
+  simp only [hhas, Bool.false_eq_true, if_false]
+  -- charset
+  have hpos6 : offs.getD 6 0 = (secPos S.B 6 : Int) := hoffs 6 (by omega)
+  have h46 : 4 ≤ secPos S.B 6 := by rw [← hP1]; exact secPos_mono _ _ _ (by omega)
+  rw [h15, hpos6]
+  simp only [not_false_eq_true, true_and]
+  rw [if_neg (by omega), if_neg (by omega), if_neg (by omega), if_neg (by omega)]
+  simp only [Int.toNat_natCast]
+  -- the charset section
+  obtain ⟨sb1, sb2, sb3⟩ := stringsLookupAll_bound T.std.toList f.names []
+  have hnotdef := hd.notdef
+  generalize hsids : (stringsLookupAll T.std.toList [] f.names).1 = sids at *
+  obtain ⟨tl, htl⟩ : ∃ tl, sids = 0 :: tl := by
+    have := hnotdef
+    cases sids with
+    | nil => simp at this
+    | cons a b => simp at this; exact ⟨b, by rw [this]⟩
+  have hgn : sids.map (fun (n : Nat) => (n : Int)) = 0 :: tl.map (fun (n : Nat) => (n : Int)) := by
+    rw [htl]; rfl
+  have hcsR := readCharset_encodeCharset (tl.map fun (n : Nat) => (n : Int))
+    (by simp only [List.length_map]; have := hd.nMax; rw [htl] at sb3; simp at sb3; omega)
+    (by
+      intro x hx
+      obtain ⟨n, hn, rfl⟩ := List.mem_map.mp hx
+      have := sb1 n (by rw [htl]; exact List.mem_cons_of_mem _ hn)
+      have := hd.nMax
+      simp only [List.length_nil] at *
+      omega)
+    (S.B.take 6).flatten (S.B.drop 7).flatten
+  obtain ⟨bs, hbs1, hbs2⟩ := hcsR
+  rw [← hgn, hcs] at hbs1
+  injection hbs1 with hbs1
+  subst hbs1
+  have hnlen : f.charStrings.length = (tl.map fun (n : Nat) => (n : Int)).length + 1 := by
+    rw [← hd.nGlyphs, ← sb3, htl]; simp
+  have hfileSplit : S.B.flatten = (S.B.take 6).flatten ++ cs ++ (S.B.drop 7).flatten := by
+    have := section_split S.B 6 (by omega)
+    rw [hB6] at this; exact this
+  have hcsRead' : readCharset S.B.flatten (secPos S.B 6) f.charStrings.length
+      = .ok (sids.map (fun (n : Nat) => (n : Int)), (S.B.take 6).flatten.length + cs.length) := by
+    rw [hnlen, hgn]
+    conv => lhs; rw [hfileSplit]
+    exact hbs2
+  rw [hcsRead']
+  simp only
+  -- the Private DICT
+  have hpos10 : offs.getD 10 0 = (secPos S.B 10 : Int) := hoffs 10 (by omega)
+  have hpos11 : offs.getD 11 0 = (secPos S.B 11 : Int) := hoffs 11 (by omega)
+  have h410 : 4 ≤ secPos S.B 10 := by rw [← hP1]; exact secPos_mono _ _ _ (by omega)
+  have hP11 : secPos S.B 11 = secPos S.B 10 + S.privBlob.length := by
+    have := secPos_succ S.B 10 (by omega); rw [hB10] at this; exact this
+  have hP12 : secPos S.B 11 ≤ S.B.flatten.length := secPos_le _ _
+  have hsubI : I32 (offs.getD 11 0 - offs.getD 10 0) := by rw [hpos10, hpos11]; unfold I32; omega
+  have hpdom := hd.priv _ hsubI
+  have hprivBlob : S.privBlob = encodeDict (privDictOf p f.defWidth f.nomWidth (offs.getD 11 0 - offs.getD 10 0)) := by
+    have := simpleSecs_priv T.std.toList f p cs offs
+    rw [hS, encodeDictS_nostr _ _ _ (privDict_nostr p _ _ _ hpdom)] at this
+    exact this
+  obtain ⟨pd, hpd, f6, f7, f3082, f3083, f3086, f3081, f10, f11, f20, f21, f19⟩ :=
+    privatedict_fields T.std S.custom.toArray p f.defWidth f.nomWidth _ hpdom
+  have hrdP : rd S.B.flatten (secPos S.B 10) S.privBlob.length = some S.privBlob := by
+    have := rd_section S.B 10 (by omega); rw [hB10] at this; exact this
+  have hsubrs : (if dInt pd 19 0 > 0 then readIndexAt S.B.flatten (wrap32 (offs.getD 10 0 + dInt pd 19 0)) else .ok [])
+      = (.ok [] : Outcome (List Bytes)) := by
+    rw [f19]
+    split
+    · have e : wrap32 (offs.getD 10 0 + (offs.getD 11 0 - offs.getD 10 0)) = (secPos S.B 11 : Int) := by
+        rw [hpos10, hpos11]; unfold wrap32 toI32; split <;> omega
+      rw [e]
+      unfold readIndexAt
+      rw [if_neg (by omega)]
+      have := readIndex_empty_section S.B 11 (by omega) hB11
+      simp only [Int.toNat_natCast, this]
+    · rfl
+  have hreadPriv : readPrivate T.std S.custom.toArray S.B.flatten D = .ok (nfPriv p f.defWidth f.nomWidth) := by
+    unfold readPrivate
+    have hpair : dPair D 18 = some ((S.privBlob.length : Int), offs.getD 10 0) := by
+      unfold dPair; rw [key, g18]; rfl
+    rw [hpair]
+    simp only
+    rw [if_neg (by rw [hpos10]; omega), if_neg (by rw [hpos10]; omega)]
+    rw [hpos10]
+    simp only [Int.toNat_natCast, hrdP]
+    rw [hprivBlob, hpd]
+    simp only
+    rw [← hpos10, hsubrs]
+    simp only [nfPriv, f6, f7, f3082, f3083, f3081, f10, f11, f20, f21]
+    congr 1
+    simpa using f3086
+  rw [hreadPriv]
+  simp only
+  -- glyph names
+  have hnames : mapOutcomeL (sidName T.std S.custom.toArray) (sids.map fun (n : Nat) => (n : Int)) = .ok f.names := by
+    have hext : ∃ ext, S.custom = (stringsLookupAll T.std.toList [] f.names).2 ++ ext := by
+      have h1 : S.custom = (encodeDictS T.std.toList (stringsLookupAll T.std.toList [] f.names).2 S.top).2 := by
+        rw [← hSenc]
+      rw [h1, encodeDictS_eq]
+      exact resolveEntries_ext _ _ _
+    obtain ⟨ext, hext⟩ := hext
+    have := names_back T.std.toList f.names [] ext
+    rw [hsids, ← hext] at this
+    simpa using this
+  rw [hnames]
+  simp only
+  -- the encoding
+  have h16 : dInt D 16 0 = if isExpert f.enc then 1 else 0 := by
+    unfold dInt; rw [key, g16]
+    cases isExpert f.enc <;> rfl
+  have hencR : (if dInt D 16 0 = 0 then (Outcome.ok (encodingByName T.standardEncRev f.names) : Outcome (List Nat))
+      else if dInt D 16 0 = 1 then .ok (encodingByName T.expertEnc f.names)
+      else if dInt D 16 0 < 0 then .err "other"
+      else readEncoding S.B.flatten (dInt D 16 0).toNat (sids.map fun (n : Nat) => (n : Int)))
+      = .ok (encodingByName (if isExpert f.enc then T.expertEnc else T.standardEncRev) f.names) := by
+    rw [h16]
+    cases isExpert f.enc <;> simp
+  rw [hencR]
+  simp only
+  -- the fields
+  have hstr : ∀ (i op : Nat), (i, op) ∈ [(0, 0), (1, 1), (2, 3072), (3, 2), (4, 3), (5, 4)] →
+      dString D op = f.strs.getD i "" := by
+    intro i op hm
+    unfold dString
+    rw [key, gstr i op hm]
+    generalize f.strs.getD i "" = s0
+    by_cases hs : s0 = ""
+    · subst hs; rfl
+    · simp only [ne_eq, hs, not_false_eq_true, if_true, List.map_cons, List.map_nil, decOperand]
+  have hfixed : decide (¬ dInt D 3073 0 = 0) = f.isFixedPitch := by
+    unfold dInt; rw [key, g3073]
+    cases f.isFixedPitch <;> simp [decOperand]
+  have hangle : dFloat D 3074 Rl.zero = f.italicAngle := by
+    unfold dFloat; rw [key, g3074]
+    by_cases hc : f.italicAngle.2.1 = 0
+    · have hz : f.italicAngle = Rl.zero := by
+        rcases hd.top.angle with ⟨h1, h2, h3⟩ | ⟨h1, _⟩
+        · generalize f.italicAngle = q at *
+          obtain ⟨n, m, e⟩ := q
+          simp only at h1 h2 h3
+          subst h1; subst h2; subst h3
+          rfl
+        · omega
+      rw [hz]; rfl
+    · simp only [hc, ne_eq, not_false_eq_true, if_true, List.map_cons, List.map_nil,
+        decOperand_realOperand _ hd.top.angle]
+      exact normReal_normal _ hd.top.angle
+  have hnum : ∀ (o : Operand) (dflt : Rl), ValidOperand o →
+      (match [o].map decOperand with
+        | [Operand.int v] => Rl.ofInt v
+        | [Operand.real n m e] => normReal n m e
+        | _ => dflt) = operandRl o := by
+    intro o dflt ho
+    cases o with
+    | int v => rfl
+    | real n m e => simp [operandRl, decOperand]
+    | str s => simp [ValidOperand] at ho
+  have hulp : dFloat D 3075 (Rl.ofInt (-100)) = if f.ulPosDefault then Rl.ofInt (-100) else operandRl f.ulPos := by
+    unfold dFloat; rw [key, g3075]
+    cases f.ulPosDefault with
+    | true => rfl
+    | false => simp only [Bool.false_eq_true, if_false]; exact hnum _ _ hd.top.ulPos
+  have hult : dFloat D 3076 (Rl.ofInt 50) = if f.ulThickDefault then Rl.ofInt 50 else operandRl f.ulThick := by
+    unfold dFloat; rw [key, g3076]
+    cases f.ulThickDefault with
+    | true => rfl
+    | false => simp only [Bool.false_eq_true, if_false]; exact hnum _ _ hd.top.ulThick
+  have hfm : dFontMatrix D 3079 false
+      = if fontMatrixNeeded (f.fontMatrix.getD defaultFM) false then f.fontMatrix.getD defaultFM else defaultFM := by
+    unfold dFontMatrix
+    rw [key, g3079]
+    cases fontMatrixNeeded (f.fontMatrix.getD defaultFM) false with
+    | false => simp
+    | true =>
+      simp only [if_true, List.length_map, hd.fmLen, ne_eq, not_true_eq_false, if_false, Bool.false_eq_true,
+        List.map_map]
+      have := mapM_real_back (f.fontMatrix.getD defaultFM) hd.top.fm
+      simp only [Function.comp_def] at this ⊢
+      rw [this]
+  unfold nfSimple
+  rw [hstr 0 0 (by simp), hstr 1 1 (by simp), hstr 2 3072 (by simp), hstr 3 2 (by simp), hstr 4 3 (by simp),
+    hstr 5 4 (by simp), hfixed, hangle, hulp, hult, hfm, hsids]
+  rfl
 
 end SfntV.Cff
